@@ -1,6 +1,8 @@
 import LitexModel.Bridge.Axl2Wb
 import LitexModel.Bridge.Wb2Axl
 import LitexModel.Bridge.Simple
+import LitexModel.Bridge.Down
+import LitexModel.Bridge.Up
 import LitexModel.DriverLib
 /-
   Numeric port encodings of the C09 bridge models for the line protocol (all numbers decimal).
@@ -13,6 +15,8 @@ import LitexModel.DriverLib
   `axl2wb aw nb shift base` : inputs = AXI-Lite master ++ Wishbone slave, outputs = AXI-Lite slave ++ Wishbone master
   `axl2csr shift adrBits nb` : inputs = AXI-Lite master ++ [csr.dat_r], outputs = AXI-Lite slave ++ [csr.adr csr.we csr.re csr.dat_w]
   `axlsram shift adrBits nb readOnly w0 w1 …` (initial words) : inputs = AXI-Lite master, outputs = AXI-Lite slave
+  `axldown ratio nbTo abits` : inputs = AXI-Lite master (wide) ++ AXI-Lite slave (narrow), outputs = AXI-Lite slave (wide) ++ AXI-Lite master (narrow)
+  `axlup ratio nbFrom` : inputs = AXI-Lite master (narrow) ++ AXI-Lite slave (wide), outputs = AXI-Lite slave (narrow) ++ AXI-Lite master (wide)
   `wb2axl adrBits shift base` : inputs = Wishbone master ++ AXI-Lite slave, outputs = Wishbone slave ++ AXI-Lite master
 -/
 namespace Litex.Bridge
@@ -49,6 +53,22 @@ def numAxlSram (c : SimpleCfg) (ro : Bool) (mem : List Nat) : NumMachine SramSta
   step s ins := (AxlM.ofNums ins).map fun m => (AxlSram.next c ro s m, (AxlSram.toMaster s m).toNums)
   key s := toString (repr s)
 
+def numDown (c : DownCfg) : NumMachine (DownWState × DownRState) where
+  init := (Down.machine c).init
+  step s ins :=
+    match AxlM.ofNums (ins.take 9), AxlS.ofNums (ins.drop 9) with
+    | some m, some r => some ((Down.machine c).next s (m, r), (Down.toMaster c s m r).toNums ++ (Down.toSlave c s m r).toNums)
+    | _, _ => none
+  key s := toString (repr s)
+
+def numUp (c : UpCfg) : NumMachine UpState where
+  init := Up.init
+  step s ins :=
+    match AxlM.ofNums (ins.take 9), AxlS.ofNums (ins.drop 9) with
+    | some m, some r => some (Up.next c s m, (Up.toMaster c s m r).toNums ++ (Up.toSlave c s m).toNums)
+    | _, _ => none
+  key s := toString (repr s)
+
 def openMachine (args : List String) (hin hout : IO.FS.Stream) : Option (IO Bool) :=
   match args with
   | name :: rest =>
@@ -60,6 +80,8 @@ def openMachine (args : List String) (hin hout : IO.FS.Stream) : Option (IO Bool
       | "axl2csr", [shift, ab, nb] => some (serve (numAxl2Csr { shift := shift, adrBits := ab, nb := nb }) hin hout)
       | "axlsram", shift :: ab :: nb :: ro :: mem =>
         some (serve (numAxlSram { shift := shift, adrBits := ab, nb := nb } (n2b ro) mem) hin hout)
+      | "axldown", [ratio, nbTo, abits] => some (serve (numDown { ratio := ratio, nbTo := nbTo, abits := abits }) hin hout)
+      | "axlup", [ratio, nbFrom] => some (serve (numUp { ratio := ratio, nbFrom := nbFrom }) hin hout)
       | "wb2axl", [ab, shift, base] => some (serve (numWb2Axl { adrBits := ab, shift := shift, base := base }) hin hout)
       | _, _ => none
   | _ => none
